@@ -136,7 +136,7 @@ func checkC16(c *core.Ctx) error {
 func checkC15(c *core.Ctx) error {
 	runs := []famRun{{"plumb", tierConsts(c,
 		map[string]string{"MaxParams": "4", "Rots": rotsOf("plumb", int(c.Seed%10))},
-		map[string]string{"MaxParams": "5", "Rots": rotsOf("plumb", 2, 4, 101, 201, 202, int(c.Seed%10))})}}
+		map[string]string{"MaxParams": "5", "Rots": rotsOf("plumb", 4, 101, 201, int(c.Seed%10))})}}
 	er, err := runEngine(c, runs)
 	if err != nil {
 		return err
